@@ -49,6 +49,7 @@ class C17(Property):
     ID = "C17"
     SESSIONS = ["s0", "s1"]
     RUNS = {"quick": (1500, 1500), "thorough": (30000, 30000)}
+    MUST_REACH = {"probes": ["tomograms_populated", "crlf_mdoc", "refused_overwrite", "missing_input", "missing_per_tomogram_file_in_batch", "recovery_after_fault"], "faults": ["crash", "enospc", "eio_write", "eio_read", "short_read", "eintr", "open_fail", "toctou_removed"]}
 
     def config(self, rng, tier, faulty):
         cfg = {
@@ -789,6 +790,8 @@ class C17(Property):
         else:
             kw["z_shift"] = float(world.model["tomos"][ids[0]]["zshift"])
         judge = self.inputs_known(world, inputs)
+        if any(self.is_absent(world, p) for p in inputs):
+            world.probes["missing_per_tomogram_file_in_batch"] += 1
         dst = self.abspath(world, step["out"]) if step["out"] else None
         out = world.call(step["sess"], wedgeutils.create_wedge_list_sg_batch, tl, faults=step.get("faults", ()), **kw)
         world.note("wedge_sg_batch %d tomos -> %s" % (len(ids), out.describe()))
@@ -814,7 +817,6 @@ class C17(Property):
                 if not self.is_absent(world, fpath(tid, step[kind])):
                     continue
                 world.oracle()
-                world.probes["missing_per_tomogram_file_in_batch"] += 1
                 vals = df.loc[df["tomo_num"] == tid, col].to_numpy(dtype=float)
                 if len(vals) and np.isfinite(vals).any():
                     raise Violation("wedge_values", "stale_input_reused:%s" % col,
